@@ -5,6 +5,7 @@ import ZstdVerif.Model.Bound
 import ZstdVerif.Model.Walker
 import ZstdVerif.Props.C09
 import ZstdVerif.Lemmas.ExecRT
+import ZstdVerif.Lemmas.BoundRT
 namespace ZstdVerif.Props.C06
 open ZstdVerif ZstdVerif.Bound ZstdVerif.Gen
 
@@ -69,5 +70,34 @@ decode sweeps, which run in exact-size sanitizer-guarded destinations -/
 theorem decode_never_exceeds_capacity {src : Bytes} {dict : Frame.Dict} {cap : Nat} {o : Frame.Opts} {res : ByteArray × Array Frame.FrameTrace}
     (h : Frame.decompressAll src dict cap o = .ok res) : res.1.size ≤ cap :=
   Frame.decompressAll_within_capacity h
+
+/-! ### the bound against the bytes of the proved serializer (Lemmas/BoundRT.lean) -/
+
+/-- **rawFrame_within_bound**: the total fallback the serializer really emits (`Serialize.rawFrame`: ZSTD_writeFrameHeader, one
+ZSTD_noCompressBlock per block of ZSTD_compress_frameChunk, ZSTD_writeEpilogue - the bytes `C01.frame_roundtrip_raw` decodes back) is
+never larger than ZSTD_compressBound, for every accepted parameter tuple (window log 10..31, hence block sizes from 1 KiB up) with a
+truthful pledged size and every input below ZSTD_MAX_INPUT_SIZE -/
+theorem rawFrame_within_bound (a : HeaderW.HArgs) (ha : a.wf) (x : ByteArray) (hp : a.contentSizeFlag = true → a.pledged = x.size)
+    (hx : x.size < ZSTD_MAX_INPUT_SIZE) : (Serialize.rawFrame a x).size ≤ compressBound x.size :=
+  BoundRT.rawFrame_within_bound a ha x hp hx
+
+/-- exact size of the total fallback: header + content + 3 bytes per block + 4 bytes of checksum -/
+theorem rawFrame_size (a : HeaderW.HArgs) (x : ByteArray) :
+    (Serialize.rawFrame a x).size = (HeaderW.writeHeader a).length + x.size +
+      3 * max 1 ((x.size + Serialize.blockSize a - 1) / Serialize.blockSize a) + (if a.checksum then 4 else 0) :=
+  BoundRT.rawFrame_size a x
+
+/-- any block size ≥ 808 (the library: ≥ 1024), or a single block: the all-raw frame fits; 808 is sharp (`BoundRT.bound_fails_below_808`) -/
+theorem rawFrameWith_within_bound (a : HeaderW.HArgs) (bsz : Nat) (h1 : 1 ≤ bsz) (x : ByteArray)
+    (hb : 808 ≤ bsz ∨ x.size ≤ bsz) (hx : x.size < ZSTD_MAX_INPUT_SIZE) :
+    (Serialize.rawFrameWith a bsz x).size ≤ compressBound x.size :=
+  BoundRT.rawFrameWith_within_bound a bsz h1 x hb hx
+
+/-- frames with RLE / compressed blocks (`BlockEnc.serializeFrame2`) fit the bound when no block is stored larger than raw and all
+blocks but the last are full blocks of at least 808 bytes -/
+theorem serialized_within_bound (a : HeaderW.HArgs) (bs : List BlockEnc.BlockChoice2) (x : ByteArray) (bsz : Nat) (hb : 808 ≤ bsz)
+    (hsum : BoundRT.contentLen bs = x.size) (hs : BoundRT.Shrinks bs BlockEnc.repStart) (hfull : BoundRT.FullBlocks bsz bs)
+    (hx : x.size < ZSTD_MAX_INPUT_SIZE) : (BlockEnc.serializeFrame2 a bs x).size ≤ compressBound x.size :=
+  BoundRT.serialized_within_bound a bs x bsz hb hsum hs hfull hx
 
 end ZstdVerif.Props.C06
